@@ -90,6 +90,19 @@ public:
 
     return "";
   }
+
+  /// Look up the given rule name in this scope and then in its parents,
+  /// returning null if not found.
+  Rule* lookupRule(StringRef name) const {
+    auto it = rules.find(name);
+    if (it != rules.end())
+      return it->second;
+
+    if (parent)
+      return parent->lookupRule(name);
+
+    return nullptr;
+  }
 };
 
 /// A node represents a unique path as present in the manifest.
